@@ -115,7 +115,7 @@ func ParseLabel(label string) (Op, error) {
 	case "Alloc", "OpenWhileOpen", "CloseStream", "Close", "CloseWhileOpen":
 	case "AllocN":
 		op.K, _ = strconv.Atoi(strings.TrimSpace(args))
-	case "Put":
+	case "Put", "PutStm":
 		f := strings.Split(args, ",")
 		op.N, _ = strconv.Atoi(strings.TrimSpace(f[0]))
 		op.G, _ = strconv.Atoi(strings.TrimSpace(f[1]))
@@ -306,6 +306,15 @@ func Execute(cfg Config, prog []Op, seed int64) (run Run, err error) {
 	// the same pdf value objects are reused for every write of a value id:
 	// writing must not modify the caller's objects
 	pvals := map[string]pdf.Object{"a": shared.ToPDF(vals["a"]), "b": shared.ToPDF(vals["b"])}
+	// *Stream values handed to Put (short bodies: the length stays direct)
+	pbody := map[string][]byte{"a": chunk(r, 1+r.Intn(300)), "b": chunk(r, r.Intn(40))}
+	if cfg.Tiny {
+		pbody = map[string][]byte{"a": []byte("x"), "b": {}}
+	}
+	pstm := map[string]*pdf.Stream{}
+	for _, id := range []string{"a", "b"} {
+		pstm[id] = pdf.NewStream(shared.ToPDF(sdict[id]).(pdf.Dict), append([]byte(nil), pbody[id]...))
+	}
 
 	version, perr := pdf.ParseVersion(cfg.Version)
 	if perr != nil {
@@ -375,6 +384,21 @@ func Execute(cfg Config, prog []Op, seed int64) (run Run, err error) {
 			op.ArgsOK = snapshot(pvals[op.V]) == before
 			if cerr == nil {
 				wr := Written{ID: op.V, Value: vals[op.V]}
+				if stm != nil {
+					queued = append(queued, pending{[2]int{op.N, op.G}, wr})
+				} else {
+					run.Written[[2]int{op.N, op.G}] = wr
+				}
+			}
+		case "PutStm":
+			before := snapshot(pstm[op.V].Dict)
+			cerr = w.Put(pdf.NewReference(uint32(op.N), uint16(op.G)), pstm[op.V])
+			op.ArgsOK = snapshot(pstm[op.V].Dict) == before
+			if again, rerr := io.ReadAll(pstm[op.V].NewReader()); rerr != nil || !bytes.Equal(again, pbody[op.V]) {
+				op.ArgsOK = false
+			}
+			if cerr == nil {
+				wr := Written{ID: op.V, Value: sdict[op.V], Stream: true, Body: pbody[op.V]}
 				if stm != nil {
 					queued = append(queued, pending{[2]int{op.N, op.G}, wr})
 				} else {
